@@ -65,7 +65,7 @@ func OracleC01(run *common.Run, id string, res *Result) int {
 		run.OracleFail(id, sig, msg, rp)
 	}
 	if res.Hang {
-		fail("hang", "Copy did not return within 40s")
+		fail("hang", "Copy did not return within 20s (re-confirmed on a fresh run)")
 		return fails
 	}
 	if res.Err != nil {
@@ -214,6 +214,9 @@ type tok struct {
 }
 
 func parseTok(s string) tok {
+	if s == "CX" { // the caller's context ended
+		return tok{op: "CX", n: -1}
+	}
 	p := strings.Split(s, ".")
 	t := tok{op: p[0], n: -1}
 	switch p[0] {
@@ -245,7 +248,7 @@ func OracleC04(run *common.Run, id string, res *Result) int {
 		run.OracleFail(id, sig, msg, rp)
 	}
 	if res.Hang {
-		fail("hang", "Copy did not return within 40s")
+		fail("hang", "Copy did not return within 20s (re-confirmed on a fresh run)")
 		return fails
 	}
 	if res.SrcMax > res.Keff {
@@ -274,7 +277,7 @@ func OracleC04(run *common.Run, id string, res *Result) int {
 	var failedNodes []int // nodes one of whose callbacks returned an error
 	for i, s := range res.Toks {
 		t := parseTok(s)
-		if t.op != "RT" && t.n < 0 {
+		if t.op != "RT" && t.op != "CX" && t.n < 0 {
 			fail("unknown-descriptor", fmt.Sprintf("event %s on a descriptor that is not a node of the source graph (altered media type / size / digest?)", s))
 		}
 		switch t.op {
@@ -430,9 +433,9 @@ func OracleC04(run *common.Run, id string, res *Result) int {
 
 // Budget of one harness run.
 type Budget struct {
-	Main, Contention, Twin, CbFail, Mount, Remote, RootPresent, Extended, TwinReach, PlatImage int
+	Main, Contention, Twin, CbFail, Mount, Remote, RootPresent, Extended, TwinReach, PlatImage, Cancel int
 	Claim                                 int // tiny graphs in which up to 8 goroutines claim one descriptor at the same instant (TryCommit)
-	Sched, SchedReps                      int // graphs run under testing/synctest with the PRNG-controlled scheduler, extra schedules per graph
+	Sched, SchedReps, SchedEnum, SchedEnumCap int // graphs run under testing/synctest with the PRNG-controlled scheduler, extra schedules per graph
 	Small                                 bool // small-scope enumeration (graphs <= 3 nodes, sampled 4-node graphs) x roots x closed subsets
 	Reps                           int // extra schedules (latency seeds) per generated case
 }
@@ -450,12 +453,14 @@ func Drive(run *common.Run, prop string, b Budget) {
 	h := sha256.Sum256([]byte(fmt.Sprintf("copyh/%s/%d", prop, run.Seed)))
 	rootRand := common.NewRand(binary.LittleEndian.Uint64(h[:8]))
 	selfTested := map[uint64]bool{}
+	var lastRes *Result
 	one := func(c *Case) {
 		id := run.NewID()
 		if js, err := json.Marshal(c); err == nil {
 			os.WriteFile(currentCasePath(run.Dir), js, 0o644)
 		}
 		res := Execute(c)
+		lastRes = res
 		if res.SetupErr == nil && res.G != nil && !selfTested[c.GenSeed^uint64(len(c.Graph))] {
 			// the generator's edge list must be what content.Successors decodes (ground truth sanity)
 			selfTested[c.GenSeed^uint64(len(c.Graph))] = true
@@ -569,6 +574,14 @@ func Drive(run *common.Run, prop string, b Budget) {
 		if c.PreTag >= 0 {
 			run.Count("destination reference pre-existing")
 		}
+		if c.CancelAt != 0 {
+			when := map[bool]string{true: "after k events", false: "before the root task starts"}[c.CancelAt > 0]
+			out := "error"
+			if res.Err == nil {
+				out = "success"
+			}
+			run.Count("context ended " + when + " -> " + out)
+		}
 		if c.MountAlways {
 			run.Count("blob root mounted into ReferencePusher/Tagger+Mounter")
 		}
@@ -629,6 +642,7 @@ func Drive(run *common.Run, prop string, b Budget) {
 			}
 		}
 	}
+	_ = lastRes
 	if run.Replay != "" {
 		for _, c := range FromReplay(run.Replay, run.Thorough()) {
 			one(c)
@@ -651,6 +665,43 @@ func Drive(run *common.Run, prop string, b Budget) {
 			}
 		}
 	}
+	// enumeration of controlled schedules on small graphs: depth-first over the choices at every quiescent
+	// point (stateless: each schedule is a fresh run of the case with a longer script)
+	if T != nil && b.SchedEnum > 0 {
+		exhaustive, capped, total := 0, 0, 0
+		for i := 0; i < b.SchedEnum; i++ {
+			base := Generate(rootRand.U64(), "schedenum", run.Thorough())
+			stack := [][]int{{}}
+			n := 0
+			for len(stack) > 0 && n < b.SchedEnumCap {
+				script := stack[len(stack)-1]
+				stack = stack[:len(stack)-1]
+				c := *base
+				c.Script = script
+				one(&c)
+				n++
+				res := lastRes
+				if res == nil || res.Hang {
+					break
+				}
+				for j := len(res.Widths) - 1; j >= len(script); j-- {
+					for a := 1; a < res.Widths[j]; a++ {
+						alt := append(append([]int(nil), res.Taken[:j]...), a)
+						stack = append(stack, alt)
+					}
+				}
+			}
+			total += n
+			if len(stack) == 0 {
+				exhaustive++
+			} else {
+				capped++
+			}
+		}
+		run.Extra["schedule_enumeration_graphs_exhausted"] = exhaustive
+		run.Extra["schedule_enumeration_graphs_capped"] = capped
+		run.Extra["schedule_enumeration_runs"] = total
+	}
 	stream("main", b.Main)
 	stream("contention", b.Contention)
 	stream("cbfail", b.CbFail)
@@ -658,6 +709,7 @@ func Drive(run *common.Run, prop string, b Budget) {
 	stream("extended", b.Extended)
 	stream("mount", b.Mount)
 	stream("remote", b.Remote)
+	stream("cancel", b.Cancel)
 	stream("platimage", b.PlatImage)
 	stream("claim", b.Claim)
 	stream("twin", b.Twin)
